@@ -44,6 +44,7 @@ struct Cfg {
   int fft;      // 0: max timeout, 1: 100 ms (shorter than the slow exporter)
   int latency;  // 1: Export of the batch child's exporter is slow
   int destroy;  // provider destroyed without explicit Shutdown
+  int slow_first;  // procs == 2: the slow exporter belongs to the FIRST child (an earlier child uses up the flush budget)
 };
 std::vector<Cfg> g_cfgs;
 std::string g_oracle;
@@ -87,8 +88,8 @@ struct LogRec : vfstub::LogRec {
 
 [[noreturn]] void fail(const std::string &sig, const std::string &msg) {
   const Cfg &c = *g->cfg;
-  std::string s = msg + vf::sfmt("\n  config: mode=%d kind=%d T=%d n=%d S=%d procs=%d F=%d fft=%d latency=%d destroy=%d\n  events:\n", c.mode, c.kind, c.T, c.n, c.S, c.procs,
-                                 c.F, c.fft, c.latency, c.destroy);
+  std::string s = msg + vf::sfmt("\n  config: mode=%d kind=%d T=%d n=%d S=%d procs=%d F=%d fft=%d latency=%d destroy=%d slow_first=%d\n  events:\n", c.mode, c.kind, c.T, c.n, c.S, c.procs,
+                                 c.F, c.fft, c.latency, c.destroy, c.slow_first);
   for (size_t i = 0; i < g->ev.size(); ++i)
     s += vf::sfmt("    [%zu] T%d %s %d %d @%lldms\n", i, g->ev[i].thread, kEvName[g->ev[i].kind], g->ev[i].a, g->ev[i].b, (long long)(g->ev[i].vt / MS));
   vfs::fail(sig, s);
@@ -207,16 +208,16 @@ void run_cfg(vf::Ctx &c, const Cfg &cfg) {
     o.max_queue_size = 8; o.max_export_batch_size = 2; o.schedule_delay_millis = milliseconds(kDelayMs);
     int id = 0;
     if (cfg.procs == 1) procs.emplace_back(new sdkt::SimpleSpanProcessor(std::unique_ptr<sdkt::SpanExporter>(new SpanExp(id++, false))));
-    if (cfg.procs == 2) procs.emplace_back(new sdkt::BatchSpanProcessor(std::unique_ptr<sdkt::SpanExporter>(new SpanExp(id++, false)), o));
-    procs.emplace_back(new sdkt::BatchSpanProcessor(std::unique_ptr<sdkt::SpanExporter>(new SpanExp(id++, cfg.latency == 1)), o));
+    if (cfg.procs == 2) procs.emplace_back(new sdkt::BatchSpanProcessor(std::unique_ptr<sdkt::SpanExporter>(new SpanExp(id++, cfg.latency == 1 && cfg.slow_first)), o));
+    procs.emplace_back(new sdkt::BatchSpanProcessor(std::unique_ptr<sdkt::SpanExporter>(new SpanExp(id++, cfg.latency == 1 && !cfg.slow_first)), o));
     nexp = id;
     drive_provider<sdkt::TracerProvider, sdkt::SpanProcessor>(c, cfg, std::move(procs), produce_span);
   } else {
     std::vector<std::unique_ptr<sdkl::LogRecordProcessor>> procs;
     int id = 0;
     if (cfg.procs == 1) procs.emplace_back(new sdkl::SimpleLogRecordProcessor(std::unique_ptr<sdkl::LogRecordExporter>(new LogExp(id++, false))));
-    if (cfg.procs == 2) procs.emplace_back(new sdkl::BatchLogRecordProcessor(std::unique_ptr<sdkl::LogRecordExporter>(new LogExp(id++, false)), 8, milliseconds(kDelayMs), 2));
-    procs.emplace_back(new sdkl::BatchLogRecordProcessor(std::unique_ptr<sdkl::LogRecordExporter>(new LogExp(id++, cfg.latency == 1)), 8, milliseconds(kDelayMs), 2));
+    if (cfg.procs == 2) procs.emplace_back(new sdkl::BatchLogRecordProcessor(std::unique_ptr<sdkl::LogRecordExporter>(new LogExp(id++, cfg.latency == 1 && cfg.slow_first)), 8, milliseconds(kDelayMs), 2));
+    procs.emplace_back(new sdkl::BatchLogRecordProcessor(std::unique_ptr<sdkl::LogRecordExporter>(new LogExp(id++, cfg.latency == 1 && !cfg.slow_first)), 8, milliseconds(kDelayMs), 2));
     nexp = id;
     drive_provider<sdkl::LoggerProvider, sdkl::LogRecordProcessor>(c, cfg, std::move(procs), produce_log);
   }
@@ -320,6 +321,10 @@ void setup(vf::Options &o) {
       { Cfg c = z; c.mode = 1; c.T = 1; c.n = 1; c.F = 1; g_cfgs.push_back(c); }       // {batch}, flush through the provider
       { Cfg c = z; c.mode = 1; c.T = 1; c.n = 1; c.F = 1; c.procs = 1; g_cfgs.push_back(c); }
       { Cfg c = z; c.mode = 1; c.T = 1; c.n = 1; c.F = 1; c.fft = 1; c.latency = 1; g_cfgs.push_back(c); }  // child flush times out
+      // two batch children, a finite flush budget, and the slow exporter behind the first / the last child: the child
+      // that ran out of time must make the provider's answer false whatever the later children say
+      { Cfg c = z; c.mode = 1; c.T = 1; c.n = 1; c.F = 1; c.fft = 1; c.latency = 1; c.procs = 2; c.slow_first = 1; g_cfgs.push_back(c); }
+      { Cfg c = z; c.mode = 1; c.T = 1; c.n = 1; c.F = 1; c.fft = 1; c.latency = 1; c.procs = 2; g_cfgs.push_back(c); }
       { Cfg c = z; c.mode = 1; c.T = 1; c.n = 1; c.S = 2; c.procs = 1; g_cfgs.push_back(c); }
       { Cfg c = z; c.mode = 1; c.T = 1; c.n = 1; c.destroy = 1; g_cfgs.push_back(c); }
       if (th) {
